@@ -141,16 +141,18 @@ def make_cond(p):
         kw = {"Lambda": J(oracle.inv_spd(Sig))}
     else:
         kw = {"Sigma": J(Sig), "Lambda": J(oracle.inv_spd(Sig)), "ln_det_Sigma": J(oracle.slogdet_spd(Sig)[0])}
+    Mj = (lambda: jnp.asarray(np.asarray(p["M"]).astype(np.int64))) if p.get("M_int_dtype") else (lambda: J(p["M"]))
     if kind == "full":
-        return conditional.ConditionalGaussianPDF(M=J(p["M"]), b=J(p["b"]), **kw), {}
+        return conditional.ConditionalGaussianPDF(M=Mj(), b=J(p["b"]), **kw), {}
     if kind == "diag":
-        return conditional.ConditionalGaussianDiagPDF(M=J(p["M"]), b=J(p["b"]), **kw), {}
+        return conditional.ConditionalGaussianDiagPDF(M=Mj(), b=J(p["b"]), **kw), {}
     if kind == "identity":
         return conditional.ConditionalIdentityGaussianPDF(**kw), {}
     if kind == "identity_diag":
         return conditional.ConditionalIdentityDiagGaussianPDF(**kw), {}
     if kind == "nn":
-        W1, b1, W2, b2 = J(p["W1"]), J(p["b1"]), J(p["W2"]), J(p["b2"])
+        F = (lambda a: jnp.asarray(np.asarray(a, float), dtype=jnp.float32)) if p.get("f32_net") else J
+        W1, b1, W2, b2 = F(p["W1"]), F(p["b1"]), F(p["W2"]), F(p["b2"])
 
         def control_func(u):
             return jnp.tanh(u @ W1 + b1) @ W2 + b2
@@ -158,7 +160,7 @@ def make_cond(p):
         c = conditional.NNControlGaussianConditional(
             Sigma=J(Sig), num_cond_dim=int(p["Dx"]), num_control_dim=int(p["Du"]), control_func=control_func
         )
-        return c, {"u": J(p["u"])}
+        return c, {"u": F(p["u"])}
     raise ValueError(kind)
 
 
